@@ -339,7 +339,8 @@ class Verdict:
                           property_predicate_fails=chosen["property_fails"],
                           how_to_replay=chosen.get("how_to_replay") or f"bin/check {self.pid} --replay {path}",
                           all_disagreements=len(self.violations),
-                          other=[dict(relation=v["relation"], case=v["case"]) for v in self.violations[1:6]])
+                          relations_that_no_longer_check=sorted({v["relation"] for v in self.violations})[:40],
+                          other=[dict(relation=v["relation"], case=v["case"]) for v in self.violations if v is not chosen][:5])
             path.write_text(json.dumps(replay, indent=1, default=str))
             tail = "" if failing else " no-failing-input-found"
             print(f"VIOLATION property={self.pid} replay={path}{tail}")
